@@ -65,6 +65,9 @@ type S struct {
 	sdErr     error
 	started   bool
 	totalWork time.Duration
+	// a second Shutdown call made while the first is draining (admin command followed by a signal)
+	sd2Start, sd2Return, sd2Ctx time.Duration
+	sd2Called, sd2Returned      bool
 }
 
 func (s *S) Prepare(c *scen.Ctx) { world.PrepareProcess() }
@@ -182,6 +185,28 @@ func (s *S) Run(c *scen.Ctx) {
 	s.started = true
 	s.mu.Unlock()
 	simrt.Event("Shutdown called")
+	var wg2 sync.WaitGroup
+	if simrt.Draw(4, "c12.second") == 3 {
+		d := time.Duration(simrt.Draw(400, "c12.secondat")) * time.Millisecond
+		s.sd2Ctx = 60*time.Second + 91*time.Microsecond
+		wg2.Add(1)
+		simrt.GoNamed("second-shutdown", func() {
+			defer wg2.Done()
+			simrt.Sleep(d)
+			ctx2, cancel2 := context.WithTimeout(context.Background(), s.sd2Ctx)
+			defer cancel2()
+			c.Count("fault.second_shutdown_call", 1)
+			s.mu.Lock()
+			s.sd2Start, s.sd2Called = simrt.Elapsed(), true
+			s.mu.Unlock()
+			simrt.Event("second Shutdown called")
+			srv.Shutdown(ctx2)
+			s.mu.Lock()
+			s.sd2Return, s.sd2Returned = simrt.Elapsed(), true
+			s.mu.Unlock()
+			simrt.Event("second Shutdown returned")
+		})
+	}
 	err := srv.Shutdown(ctx)
 	cancel()
 	s.mu.Lock()
@@ -189,6 +214,7 @@ func (s *S) Run(c *scen.Ctx) {
 	s.mu.Unlock()
 	simrt.Event("Shutdown returned after %v", s.sdReturn-s.sdStart)
 	wg.Wait()
+	wg2.Wait()
 	// let every handler finish and every connection close: even a single worker
 	// gets through all the work in the sum of the handler durations
 	simrt.Sleep(s.totalWork + 9*time.Second)
@@ -308,6 +334,21 @@ func (s *S) Check(c *scen.Ctx, res *simrt.Result) {
 		}
 	} else {
 		c.Count("probe.shutdown_returned_at_ctx_expiry", 1)
+	}
+	if s.sd2Called {
+		if !s.sd2Returned {
+			c.Fail("C12", "shutdown-never-returned", poolKey+",second-call", "a second Shutdown call made at %v had not returned when the run ended", s.sd2Start)
+		} else if s.sd2Return < s.sd2Start+s.sd2Ctx-time.Millisecond {
+			for _, rc := range s.clients {
+				if rc.conn == nil || rc.connAt+time.Millisecond >= s.sdStart {
+					continue
+				}
+				pr := rc.conn.Pair
+				if pr.Server.ClosedAt < 0 || pr.Server.ClosedAt > s.sd2Return {
+					c.Fail("C12", "returned-before-drained", poolKey+",second-call", "a second Shutdown call (made at %v while the first was draining) returned at %v, long before its context would expire, while the connection of client %d was still open on the server side (closed at %v)", s.sd2Start, s.sd2Return, rc.idx, pr.Server.ClosedAt)
+				}
+			}
+		}
 	}
 	due := lastAnswer
 	if ctxExpiry < due {
